@@ -9,9 +9,8 @@ import ISnap.Model.Assign
   index the old keyword list, exactly like `DictAdapter`.
   `apply_all` for an `ast.Call` parent is the same weaving as for dicts.
 
-  Positional arguments and star-arguments of the old call are outside this model (a call with `*args` /
-  `**kw` is returned unchanged by the code; positional arguments of a dataclass call are always deleted and
-  re-inserted as keywords — a recorded finding).
+  Star-arguments of the old call are outside this model (a call with `*args` / `**kw` is returned unchanged
+  by the code).  Positional arguments: `assignCallPos` at the end of this file.
 -/
 namespace ISnap.CallAssign
 open ISnap ISnap.Assign
@@ -79,5 +78,29 @@ def assignCall (F : Flags) (kw : List (Nat × Expr)) (fields : List Field) : Cal
     | some e => (f.1, (assign F e f.2.1).merged)
     | none => (f.1, f.2.1))
   { cats := cats, kw := kw', merged := merged }
+
+/-! ### positional arguments of the old call
+
+  For the adapters whose `arguments()` returns keyword arguments only (dataclass, attrs, pydantic, namedtuple)
+  every positional argument of a hand-written call `A(1, 2)` is deleted (category fix, whatever its value) and
+  its field is inserted again as a keyword argument (fix) — unless it now holds its default.  The insert
+  positions count the matched keywords only but index the list `args + keywords` (`apply_all`), so with `k`
+  positional arguments in front an inserted keyword lands `k` slots earlier than its field order says; the
+  keyword *set* is the same.  Without `fix` nothing changes. -/
+
+structure CallOutP where
+  cats : Flags
+  pos : List Expr
+  kw : List (Nat × Expr)
+  merged : List (Nat × Val)
+
+def assignCallPos (F : Flags) (pos : List Expr) (kw : List (Nat × Expr)) (fields : List Field) : CallOutP :=
+  let r := assignCall F kw fields
+  let o := oldKeywords F kw fields
+  let ins := inserts (kw.map (·.1)) fields 0 []
+  { cats := r.cats.union (if pos.isEmpty then Flags.empty else Flags.single .fix),
+    pos := if F.fix then [] else pos,
+    kw := if F.fix then weave (pos.map (fun _ => none) ++ o.2) ins 0 else r.kw,
+    merged := r.merged }
 
 end ISnap.CallAssign
